@@ -260,6 +260,28 @@ def gen_rev_answer_before_registered_case(rng):
             "steps": steps, "n": n, "dest": ["pa"] * n, "unanswered": [], "strays": 0, "dups": 0, "hook": True, "forced": "answer-before-registered"}
 
 
+def gen_rev_first_calls_case(rng):
+    """reverse.Caller: the very FIRST calls to provider ids nobody has called yet, several callers at the same instant per
+    id (the caller creates its per-provider tables on first use); a scripted provider then fetches and answers each id."""
+    ids = ["q%d" % i for i in range(rng.choice([120, 160]))]
+    per = rng.choice([8, 12])
+    steps, k = [], 0
+    for p in ids:
+        steps.append(["invoke_burst", k, per, p])
+        k += per
+    steps.append(["sleep", 40])
+    k = 0
+    for p in ids:
+        steps.append(["fetch", p])
+        steps.append(["end", p, [["k", k + j] for j in range(per)]])
+        k += per
+    n = k
+    steps += [["await_ret", j, 3000] for j in range(n)]
+    dest = [p for p in ids for _ in range(per)]
+    return {"fam": "rev-script", "kind": "reverse", "rev": {"providers": ids, "mode": "script", "caller_timeout_ms": 2500},
+            "steps": steps, "n": n, "dest": dest, "unanswered": [], "strays": 0, "dups": 0, "first_calls": True}
+
+
 def gen_first_select_case(cid, transport):
     """hook: Send is held with caller 0's request in hand, so callers 1 and 2 sit in their FIRST select with nobody to take
     their requests; caller 1 is cancelled there (case <-ctx.Done(): c.delete(index) of the first select); then Send goes on
@@ -367,6 +389,8 @@ def gen_cases(ctx, hook):
         add(gen_rev_mixed_case(rng))
     for _ in range(4 if quick else 20):
         add(gen_rev_abandon_case(rng))
+    for _ in range(3 if quick else 12):
+        add(gen_rev_first_calls_case(rng))
     if hook and rev_hook_present():
         for _ in range(2 if quick else 6):
             add(gen_rev_answer_before_registered_case(rng))
